@@ -14,7 +14,7 @@ COMMON_NOTE = ("Trusted: Lean kernel + propext/Classical.choice/Quot.sound; the 
 
 PROPS = {
     "C05": dict(
-        streams=[dict(cmd="C05"), dict(cmd="C05P")],
+        streams=[dict(cmd="C05"), dict(cmd="C05P"), dict(cmd="C05M")],
         technique="Lean 4 theorems (potential-function invariant of the token bucket, induction over call histories) + differential correspondence on a virtual clock",
         level_text="The token-bucket law (window bound 20 + R*T + 1 literally, the same law for the position gate, liveness, and the staleness bound of the "
                    "gate/limiter pipeline) is proved in Lean for every non-decreasing call history, every bucket state and every window; the model's "
@@ -138,7 +138,7 @@ PROPS.update({
         level_note=COMMON_NOTE,
         ),
     "C19": dict(
-        streams=[dict(cmd="C19")],
+        streams=[dict(cmd="C19"), dict(cmd="C19M")],
         technique="Lean 4 proof (kept row count never exceeds the terminal height, every frame sequence; wrapped height = rows of wrap) + differential correspondence",
         level_text="last_line_count <= H is proved for every frame sequence and alignment, and the wrapped-height formula is proved equal to the rows written; screens of "
                    "the real crate on terminals from 1x1 up equal the model's.",
